@@ -11,7 +11,7 @@ import (
 
 func init() {
 	register("C05", func(r *Report) {
-		r.Explanation = "Decides both clauses for all maps, client IDs and names (the arguments are value independent): (R1) GetTopicName explored for all 16 combinations of (client map present, client map has the ID, \"*\" map present, \"*\" map has the ID) - presence meaning the comma-ok result of the map lookups, entry values unconstrained (possibly empty) - returns the client-specific entry when it exists, otherwise the \"*\" entry, otherwise not-found; (R2) every 'found' return of GetTopicID returns a range key of a map whose range value was compared equal to the requested name, and that map is either the client's own map, or the \"*\" map under a failed comma-ok lookup of the same key in a map value that is (on every path) the client's own map t[clientID] - which together with R1 implies GetTopicName(clientID, id) == name. (R3) the users of the pair - every resolver site of gateway, client library and CLI tools - call these two functions directly with their own client ID (C32-R1/R2) and the gateway pairs IDs and names only from their results (C02-R2, C01-R2), so the consistency decided above is what the peers actually observe. Not decided: YAML parsing."
+		r.Explanation = "Decides both clauses for all maps, client IDs and names (the arguments are value independent): (R1) GetTopicName explored for all 16 combinations of (client map present, client map has the ID, \"*\" map present, \"*\" map has the ID) - presence meaning the comma-ok result of the map lookups, entry values unconstrained (possibly empty) - returns the client-specific entry when it exists, otherwise the \"*\" entry, otherwise not-found; (R2) every 'found' return of GetTopicID returns a range key of a map whose range value was compared equal to the requested name, and that map is either the client's own map, or the \"*\" map under a failed comma-ok lookup of the same key in a map value that is (on every path) the client's own map t[clientID] - which together with R1 implies GetTopicName(clientID, id) == name. (R3) the users of the pair - every resolver site of gateway, client library and CLI tools - call these two functions directly with their own client ID (C32-R1/R2) and the gateway pairs IDs and names only from their results (C02-R2, C01-R2), so the consistency decided above is what the peers actually observe; the gateway's identity is replaced only by a CONNECT that starts a connect exchange (C32-R2) and reaches it unaltered: (RC) the CONNECT layout on both ends (C21/C22 for Connect). Not decided: YAML parsing."
 		r.floor("R1", 16)
 		r.floor("R2", 2)
 	}, checkC05)
